@@ -42,6 +42,7 @@ func (*Enum) Build(gen Generator, ctx *MethodContext, sourceID *xtype.JenID, sou
 		return nil, nil, err
 	}
 
+	// keyed by enumValueKey: float and big integer constants are pointers and never compare equal
 	sourceTargetMapping := map[interface{}]enumMapping{}
 	for _, sourceName := range sourceEnum.SortedMembers() {
 		delete(definedKeys, sourceName)
@@ -68,7 +69,7 @@ func (*Enum) Build(gen Generator, ctx *MethodContext, sourceID *xtype.JenID, sou
 		}
 
 		sourceValue := sourceEnum.Members[sourceName]
-		if previous, ok := sourceTargetMapping[sourceValue]; ok {
+		if previous, ok := sourceTargetMapping[enumValueKey(sourceValue)]; ok {
 			if enumTargetMismatches(previous, targetEnum, targetName) {
 				return nil, nil, enumTargetMismatchError(targetEnum, sourceName, targetName, previous, sourceValue).Lift(&Path{
 					SourceType: fmtEnumValue(sourceEnum, sourceName),
@@ -83,7 +84,7 @@ func (*Enum) Build(gen Generator, ctx *MethodContext, sourceID *xtype.JenID, sou
 					fmtEnumValue(sourceEnum, previous.Source), fmtEnumValue(targetEnum, previous.Target))))
 			}
 		} else {
-			sourceTargetMapping[sourceValue] = enumMapping{Source: sourceName, Target: targetName}
+			sourceTargetMapping[enumValueKey(sourceValue)] = enumMapping{Source: sourceName, Target: targetName}
 			cases = append(cases, jen.Case(sourceQual).Add(body))
 		}
 	}
@@ -169,9 +170,14 @@ func executeTransformers(transformers []config.ConfiguredTransformer, source, ta
 	return transformerMapping, nil
 }
 
+// enumValueKey returns a comparable representation of a constant value (see go/constant.Val).
+func enumValueKey(value interface{}) string {
+	return fmt.Sprintf("%T:%v", value, value)
+}
+
 func enumTargetMismatches(previous enumMapping, targetEnum *xtype.Enum, targetName string) bool {
 	if !config.IsEnumAction(targetName) && !config.IsEnumAction(previous.Target) {
-		return targetEnum.Members[previous.Target] != targetEnum.Members[targetName]
+		return enumValueKey(targetEnum.Members[previous.Target]) != enumValueKey(targetEnum.Members[targetName])
 	}
 	return targetName != previous.Target
 }
